@@ -144,11 +144,34 @@ CLAIMS.update({
                      "next server-assigned ids; the same monitor judges the real results in TLC."),
 })
 
+
+HS_NOTE = ("Trusted: TLC/SANY, the python driver, the harness's mirror of the reading task (first frame must be a hello, a chunk is "
+           "handed to process_chunk, an error finishes the transport) and hook accessors verif_hello / verif_chunk / verif_pending. "
+           "Frames are built with the real encoders on a policy-None client channel.")
+_HS = "Handshake.tla (transport state, issued flag, pending chunk list; one action per frame the codec yields) is model-checked by TLC against the %s monitor of HandshakeProps.tla for every frame sequence up to the depth bound; the same sequences are fed to a real TcpTransport of a real server; the queued responses, transport state and pending chunks observed after every frame are judged by the monitor in TLC and compared with the specification's prediction. "
+CLAIMS.update({
+    "C15": dict(engine="handshake", level="model_checking", note=HS_NOTE,
+                text=_HS % "C15" + "Monitor: nothing but a Hello is answered before an ACK was sent and the connection does not survive such a frame; no service response to a MSG before an OpenSecureChannel response was seen; nothing is answered after CloseSecureChannel / an error."),
+    "C10": dict(engine="handshake", level="model_checking", note=HS_NOTE + " The TCP framing half (declared frame size) is decided by the C03 check.",
+                text=_HS % "C10" + "Monitor: the number of pending chunks never exceeds max_chunk_count and their bytes never exceed max_message_size (two server configurations: count-bound and byte-bound)."),
+    "C35": dict(engine="ctrans", level="model_checking",
+                note="Trusted: TLC, the three monitor modules, the harness glue standing in for TcpTransport::poll, the deadline-moving hook, MessageChunk splitting in the harness. Not covered: sockets, tcp.rs.",
+                text="ClientTransport.tla (pending request map, deadlines, chunk assembly, close) is model-checked by TLC against the C35 monitor (each request completes at most once, with its own response, BadTimeout only after expiry, closed status only after close, exactly once at the end) for all interleavings of submit / response chunks (known, unknown, completed, expired ids) / expiry / close within 3-6 requests and 8-12 events; the behaviours (exhaustive + simulation) are replayed on the real TransportState / Request::send with real chunks and judged by the same monitor in TLC, with the L1 prediction compared step by step."),
+    "C36": dict(engine="cacks", level="model_checking",
+                note="Trusted: TLC, the monitor module, the harness sitting at the session's request queue (hooks Session::verif_wire / verif_publish). Not covered: the subscription event loop's timing, a real server on loopback.",
+                text="ClientAcks.tla (acknowledgements to send, in-flight publish requests, failures with re-queue) is model-checked by TLC against the C36 monitor (every received (subscription, sequence number) is acknowledged in exactly one successful publish request, acknowledgements of failed requests reappear, none twice after success) for up to 3 publishes in flight, 2 subscriptions, 6 failure modes; the behaviours are replayed through the real Session::publish and judged by the same monitor in TLC. The client's acknowledging of keep-alive sequence numbers is a known finding with its own clause suffix."),
+    "C37": dict(engine="backoff", level="model_checking",
+                note="Trusted: TLC, exact big naturals in BigDigits.tla, the back-off state hook.",
+                text="Backoff.tla specifies the delay sequence (initial, min(max, 2*previous), exactly retry-limit many or unbounded) with exact nanosecond arithmetic over the duration points 0, 1 ns, 500 ms, 30 s, MAX/2, MAX/2+1ns, MAX-1ns, MAX and retry limits none, 0..3, 10, 70, u32::MAX; TLC checks the specified sequence against the predicate and emits each policy; the real ExponentialBackoff produces up to 70 delays per policy, judged by the same predicate in TLC."),
+})
+
 NOT_APPLICABLE = {
     "C41": "identity of a third-party YAML serializer over configuration records: no state, transition or case analysis for a TLA+ specification to own, and TLC cannot enumerate the string space that matters (DESIGN.md section 5)",
     "C42": "encode/decode fidelity of serde implementations with identity as the only oracle: outside what a TLA+ model decides (DESIGN.md section 5)",
 }
 ENGINES = [
+    {"name": "handshake", "path": "/verif/harness/src/e_handshake.rs", "serves_properties": ["C10", "C15"], "kind_free_text": "feeds frame sequences of Handshake.tla to a real TcpTransport; judged by TraceHandshake.tla"},
+    {"name": "h_client", "path": "/verif/h_client", "serves_properties": ["C35", "C36", "C37"], "kind_free_text": "replays ClientTransport.tla / ClientAcks.tla behaviours on the real client TransportState and Session::publish; runs Backoff.tla policies on the real ExponentialBackoff"},
     {"name": "aspace", "path": "/verif/harness/src/e_aspace.rs", "serves_properties": ["C28", "C29", "C31"], "kind_free_text": "replays AddressSpace.tla behaviours on a real small AddressSpace; judged by TraceAspace.tla"},
     {"name": "nodemgmt", "path": "/verif/harness/src/e_nodemgmt.rs", "serves_properties": ["C34"], "kind_free_text": "replays NodeMgmt.tla behaviours through the real NodeManagement services; judged by TraceNodeMgmt.tla"},
     {"name": "h_codec", "path": "/verif/h_codec", "serves_properties": ["C01", "C02", "C03"], "kind_free_text": "concretises Codec.tla / CodecLim.tla cases as real values and bytes; child processes + counting allocator"},
